@@ -132,7 +132,8 @@ PROPS["C13"] = {
     "module": "PropC13",
     "theorems": ["C13_covering_windows_agree", "C13_chaos_function", "C13_same_text_same_chaos", "C13_chaos_function_binary32",
                  "C13_mess_is_bank_sum_of_a_prefix", "C13_mess_full_scan_when_threshold_not_reached",
-                 "C13_same_text_same_chaos_across_inputs", "C13_unicode_forms_same_chaos", "C13_chaos_function_pipeline"],
+                 "C13_same_text_same_chaos_across_inputs", "C13_unicode_forms_same_chaos", "C13_chaos_function_pipeline",
+                 "C13_any_modelled_encoding_same_chaos"],
     "model_targets": ["Model/Md32.vo"],
     "runs": [detect_run("C13", 260, 4000)],
     "search": detect_search("C13"),
